@@ -17,6 +17,7 @@ import (
 	"reservoir/proxy/responder"
 	"reservoir/utils/httplistener"
 	"reservoir/utils/typeutils"
+	"strings"
 	"time"
 )
 
@@ -138,7 +139,9 @@ func (p *Proxy) handleRangeRequest(r responder.Responder, req *http.Request, cac
 		if ifRange.IsLeft() {
 			// IfRange is ETag
 			etagIfRange := ifRange.ForceUnwrapLeft()
-			if etagIfRange != cached.Metadata.Object.ETag {
+			// Entity tags in If-Range are compared strongly (RFC 9110 sections 13.1.5 and 8.8.3.2): a weak
+			// tag does not match, not even the identical weak tag.
+			if etagIfRange != cached.Metadata.Object.ETag || strings.HasPrefix(etagIfRange, "W/") {
 				slog.Info("If-Range does not match cached ETag. Sending full 200 response.", "url", req.URL, "key", key)
 				return ErrIfRangeMismatch
 			}
